@@ -39,3 +39,18 @@ package keeper
 //@   ensures[C15.tick.frame] forall(i, 0, old(traceN()), traceAt(i) == old(traceAt(i))) &&
 //@        (starts(ctx, epochInfo) || ticks(ctx, epochInfo) ==>
 //@           store(ctx, "epochs") == sput(old(store(ctx, "epochs")), epochKey(epochInfo.Identifier), epochRaw(ctx, epochInfo.Identifier)))
+
+// C15 (the n-th epoch's start time is start + (n-1) x duration, for all configured start times - past, present,
+// future): adding an identifier keeps the configured start time, duration and counters; only an UNSET start time is
+// replaced by the block time (and an unset start height by the block height). A duplicate identifier is refused.
+//@ func (Keeper).AddEpochInfo
+//@   flag pure=Validate
+//@   modifies get(ctx, "epochs", epochKey(epochInfo.Identifier))
+//@   ensures[C15.aei.dup]   old(epochRaw(ctx, epochInfo.Identifier)) != nil ==> err != nil && state(ctx) == old(state(ctx))
+//@   ensures[C15.aei.start] err == nil ==> epochRaw(ctx, epochInfo.Identifier) != nil &&
+//@        epochOf(ctx, epochInfo.Identifier).StartTime == ite(epochInfo.StartTime == TIME_ZERO, ctx.time, epochInfo.StartTime) &&
+//@        epochOf(ctx, epochInfo.Identifier).Duration == epochInfo.Duration && epochOf(ctx, epochInfo.Identifier).Identifier == epochInfo.Identifier &&
+//@        epochOf(ctx, epochInfo.Identifier).CurrentEpoch == epochInfo.CurrentEpoch &&
+//@        epochOf(ctx, epochInfo.Identifier).CurrentEpochStartTime == epochInfo.CurrentEpochStartTime &&
+//@        epochOf(ctx, epochInfo.Identifier).EpochCountingStarted == epochInfo.EpochCountingStarted &&
+//@        epochOf(ctx, epochInfo.Identifier).CurrentEpochStartHeight == ite(epochInfo.CurrentEpochStartHeight == 0, ctx.height, epochInfo.CurrentEpochStartHeight)
